@@ -213,6 +213,7 @@ pub struct Outcome {
     pub read_times: Vec<(u64, usize)>,
     pub max_outbuf: usize,
     pub gate_outbufs: Vec<usize>,
+    pub io_exit_time_ns: Option<u64>,
 }
 
 struct St {
@@ -241,6 +242,7 @@ struct St {
     steps: usize,
     max_outbuf: usize,
     gate_outbufs: Vec<usize>,
+    io_exit_time_ns: Option<u64>,
     record_labels: bool,
 }
 
@@ -481,6 +483,12 @@ impl St {
                 best = Some(best.map(|b| b.min(*s)).unwrap_or(*s));
             }
         }
+        if self.io_exists() && !self.io_gone() {
+            if let Some(t) = self.broker.next_time_ns() {
+                let t = t.max(now);
+                best = Some(best.map(|b| b.min(t)).unwrap_or(t));
+            }
+        }
         if let (Some(t), true) = (self.io_timeout, self.io_exists() && matches!(self.actors[IO].status, Status::Parked(Wait::Gate))) {
             let d = self.io_gate_time.saturating_add(t.as_nanos() as u64).saturating_add(1);
             best = Some(best.map(|b| b.min(d)).unwrap_or(d));
@@ -535,6 +543,14 @@ impl St {
                     // a timer that became due raised its readiness itself; a poll timeout
                     // simply lets the I/O thread run again
                     self.io_idle = false;
+                    let mut out = BrokerOut::default();
+                    self.broker.on_time(t, &mut out);
+                    if !out.bytes.is_empty() || out.eof {
+                        // what the server sends on its own arrives at once
+                        self.absorb(out);
+                        let n = self.tr.pending.len();
+                        self.apply_env(EnvAction::Deliver(n));
+                    }
                 }
             }
             EnvAction::Broker(i) => {
@@ -680,6 +696,7 @@ impl World {
                 steps: 0,
                 max_outbuf: 0,
                 gate_outbufs: Vec::new(),
+                io_exit_time_ns: None,
                 record_labels,
             }),
             done: Condvar::new(),
@@ -868,6 +885,7 @@ impl World {
         o.read_times = st.tr.read_times.clone();
         o.max_outbuf = st.max_outbuf;
         o.gate_outbufs = st.gate_outbufs.clone();
+        o.io_exit_time_ns = st.io_exit_time_ns;
         (st.points.clone(), o)
     }
 
@@ -1039,6 +1057,7 @@ impl Controller for World {
             Point::IoExit { panicking } => {
                 let mut st = self.lock();
                 st.io_exit_panicking = panicking;
+                st.io_exit_time_ns = Some(verif::clock::now_ns());
                 st.io_events.push(IoEvent::Exit { panicking });
             }
             Point::IoGone => {
